@@ -152,6 +152,11 @@ impl State {
         self.last_token.as_ref().map(|t| t.as_str().to_string())
     }
 
+    /// Cheap counters: (data stack length incl. hidden part, heap length, instruction meter).
+    pub fn verif_counts(&self) -> (usize, usize, usize) {
+        (self.data_stack.len(), self.heap.len(), self.insn_meter)
+    }
+
     /// Configured limits (instructions, stack, heap).
     pub fn verif_limits(&self) -> (Option<usize>, Option<usize>, Option<usize>) {
         (self.insn_limit, self.stack_limit, self.heap_limit)
